@@ -177,7 +177,11 @@ func (s *Scanner) Length() uint {
 		if lex.Type() == lexeme.EndTop {
 			// Found character after the end of the schema and spaces.
 			// Example: char "s" in "{} some text"
-			length = uint(lex.End()) - 1
+			// The character may also directly follow the schema (example:
+			// char "s" in "{}some text"), so never cut the last lexeme.
+			if end := uint(lex.End()); end > length {
+				length = end - 1
+			}
 			break
 		}
 
